@@ -6,6 +6,8 @@ import (
 	"go/token"
 	"go/types"
 	"strings"
+
+	"golang.org/x/tools/go/packages"
 )
 
 // ---------------------------------------------------------------------------
@@ -13,8 +15,106 @@ import (
 
 // symEnv evaluates int expressions over receiver fields and parameters.
 type symEnv struct {
-	info *types.Info
-	vals map[string]lin // current value of a storage key
+	info  *types.Info
+	vals  map[string]lin // current value of a storage key
+	depth int
+}
+
+// loadedPkgs: the packages of the module and the iterator dependency (set by the loader).
+var loadedPkgs []*packages.Package
+
+// inlineAccessor evaluates a call of a function or method of the same package
+// whose body is a single return of one expression (an accessor such as
+// `func (s Stack) top() int { return s.offs + s.size }`): parameters and the
+// fields of the receiver are bound to their values at the call site.
+func (e *symEnv) inlineAccessor(call *ast.CallExpr) (lin, bool) {
+	if e.depth > 2 {
+		return lin{}, false
+	}
+	cal := Callee(e.info, call)
+	if cal == nil {
+		return lin{}, false
+	}
+	var pkg *packages.Package
+	for _, p := range loadedPkgs {
+		if p.TypesInfo == e.info {
+			pkg = p
+		}
+	}
+	if pkg == nil || cal.Pkg() != pkg.Types {
+		return lin{}, false
+	}
+	fd := findFuncDecl(pkg, cal)
+	if fd == nil || fd.Body == nil || len(fd.Body.List) != 1 {
+		return lin{}, false
+	}
+	ret, ok := fd.Body.List[0].(*ast.ReturnStmt)
+	if !ok || len(ret.Results) != 1 {
+		return lin{}, false
+	}
+	sub := &symEnv{info: e.info, vals: map[string]lin{}, depth: e.depth + 1}
+	// parameters
+	i := 0
+	if fd.Type.Params != nil {
+		for _, f := range fd.Type.Params.List {
+			for _, nm := range f.Names {
+				if i >= len(call.Args) {
+					return lin{}, false
+				}
+				if k, ok := exprKey(e.info, nm); ok {
+					sub.vals[k] = e.eval(call.Args[i])
+				}
+				i++
+			}
+		}
+	}
+	if i != len(call.Args) {
+		return lin{}, false
+	}
+	// receiver fields
+	if fd.Recv != nil && len(fd.Recv.List) == 1 && len(fd.Recv.List[0].Names) == 1 {
+		sel, ok := ast.Unparen(call.Fun).(*ast.SelectorExpr)
+		if !ok {
+			return lin{}, false
+		}
+		baseKey, ok := exprKey(e.info, sel.X)
+		if !ok {
+			return lin{}, false
+		}
+		recvObj := e.info.Defs[fd.Recv.List[0].Names[0]]
+		bad := false
+		ast.Inspect(ret.Results[0], func(n ast.Node) bool {
+			fs, ok := n.(*ast.SelectorExpr)
+			if !ok {
+				return true
+			}
+			id, ok := ast.Unparen(fs.X).(*ast.Ident)
+			if !ok || e.info.ObjectOf(id) != recvObj {
+				return true
+			}
+			ck, ok1 := exprKey(e.info, fs)
+			name, rest, _ := strings.Cut(baseKey, "@")
+			callerKey := name + "." + fs.Sel.Name + "@" + rest
+			if !ok1 {
+				bad = true
+				return false
+			}
+			if v, ok := e.vals[callerKey]; ok {
+				sub.vals[ck] = v
+			} else {
+				sub.vals[ck] = symVar(callerKey)
+			}
+			return false
+		})
+		if bad {
+			return lin{}, false
+		}
+	}
+	res := sub.eval(ret.Results[0])
+	if res.top {
+		return lin{}, false
+	}
+	return res, true
 }
 
 func symVar(k string) lin { return lin{terms: map[string]int{k: 1}} }
@@ -46,6 +146,9 @@ func (e *symEnv) eval(x ast.Expr) lin {
 			if k, ok := exprKey(e.info, t.Args[0]); ok {
 				return symVar("len:" + k)
 			}
+		}
+		if v, ok := e.inlineAccessor(t); ok {
+			return v
 		}
 	}
 	return linTop()
